@@ -200,7 +200,10 @@ impl<'a> Parser<'a> {
     /// `Role::input_streams`.
     pub fn set_stream(&mut self, stream: Option<fcgi::RecordType>) -> Result<(), SequenceError> {
         if let Some(s) = stream {
-            if cmp_input_streams(self.request.role, s, self.stream) == Ordering::Less {
+            // Record types that are not input streams can never be valid for any role
+            if !s.is_input_stream()
+                || cmp_input_streams(self.request.role, s, self.stream) == Ordering::Less
+            {
                 return Err(SequenceError { role: self.request.role, new: s, old: self.stream });
             }
         }
